@@ -77,6 +77,9 @@ def pyeval(expr, m, t, l, mask):
     return eval(expr, {"__builtins__": {}}, {"m": m, "t": t, "l": l}) & mask
 
 
+
+from ..valueflow import compose_maps
+
 def run(c, facts, tier):
     posix = json.load(open(POSIX))
     chmod = json.load(open(CHMOD))
@@ -237,6 +240,10 @@ def run(c, facts, tier):
         oko = st["cs"] == peg.cs_in("01234567") and radix == [8] and exact
         det = "digits %s, radix %s, exact from_bits: %s" % (peg.cs_show(st["cs"]), radix, exact)
         c.ob("C08.octal", pk, "octal digits, radix 8, exact bit conversion", oko, det)
+        env_ = {"__module": facts.fn(pk).module, "__tsubst": {}}
+        comp = compose_maps(maps, facts, b, env_, "Permission")
+        want_comp = "Permission(Mode::from_bits(u32::from_str_radix(X,8).unwrap()).unwrap())"
+        c.ob("C08.octal", pk, "the permission is exactly the mode of the octal value", comp is not None and re.sub(r"\s", "", comp) == want_comp, "digits X become `%s`; required `%s` (no masking or other arithmetic on the way, conversions through From impls inlined)" % (comp, want_comp), witness="-perm 4755" if comp != want_comp else None)
         bounded = st["max"] is not None and 8 ** st["max"] - 1 <= MASK and st["min"] >= 3
         c.ob(
             "C08.octal",
@@ -270,9 +277,16 @@ def run(c, facts, tier):
                 fold_ok = seed_ok and step_ok and ms in (["iter"], ["into_iter"])
             det = "fold over %s from %s with step `%s`" % (ms, src(seed), src(clo)[:50])
         okf = sepok and fold_ok
+        comp_s = compose_maps(maps, facts, b, {"__module": facts.fn(pk).module, "__tsubst": {}}, "Permission")
+        okw = comp_s is not None and re.fullmatch(r"Permission\(X\.(iter|into_iter)\(\)\.fold\(.*\)\)", re.sub(r"\s", "", comp_s)) is not None
+        c.ob("C08.fold", pk, "the permission is exactly the folded mode", okw, "clause list X becomes `%s`; required `Permission(X.iter().fold(..))` with nothing applied to the folded mode" % (comp_s[:140] if comp_s else None), witness="-perm u+s" if not okw else None)
         c.ob("C08.fold", pk, "clauses separated by ',' and applied left to right from mode 0", okf, det + "; separator/min ok: %s" % sepok, witness="-perm u+r,u-r" if okf is False else None)
     else:
         c.ob("C08.fold", pk, "symbolic branch present", False, det)
+    from .. import mir as _mir
+
+    nacc = _mir.order_rule(c, facts, "C08.fold", [pk], "clauses must be applied in the order written (u+r,u-r ≠ u-r,u+r) and none may be dropped")
+    c.ob("C08.fold", pk, "the clause list is an accumulation of the resolved program", nacc >= 1, "%d winnow accumulation(s) found in %s" % (nacc, pk), nontrivial=False)
     # ---------------------------------------------------------------- prefix
     scope = b.scope(pp.module)
     cs = A.comparison_shape(g, b.fn_ir("<PermCheck as Parseable>::parse"), scope)
